@@ -60,6 +60,19 @@ func waitGroupBody(s *simrt.Sim) {
 				r.hit("triggered-while-other-call-in-flight", o != dc && o.contains(step))
 			}
 		}
+		if dc != nil && !dc.add {
+			// "triggers when and only when its last pending element is marked done": a Done none of whose elements was
+			// ever handed to an Add (invoked before this moment) has marked nothing done
+			justified := false
+			for _, c := range calls {
+				if c.add && c.inv < step && intersects(c.elems, dc.elems) {
+					justified = true
+				}
+			}
+			if !justified {
+				s.Fail("wait-group", "triggered-by-done-that-removed-nothing", "the wait group triggered at step %d inside Done%v although none of these elements was ever added", step, dc.elems)
+			}
+		}
 		if dc == nil {
 			s.Fail("wait-group", "triggered-outside-add-or-done", "the wait group triggered at step %d on a task that is not inside an Add or Done call", step)
 		}
